@@ -86,6 +86,7 @@ InitState ==
    pipe |-> <<>>,
    io |-> [rlist |-> <<>>, wlist |-> <<>>, deadline |-> NodeCfg.wakeup, done |-> FALSE],
    e2e |-> 1000,
+   held |-> <<>>,                          \* requests delivered to "hold" applications: [a, c, m, answered]
    overflow |-> FALSE,                     \* the instance's MaxConn bound cut a dial short (such states are discarded)
    dialPlan |-> <<>>,                      \* outcomes the environment will give to the next connect() calls
    out |-> <<>>]
@@ -275,8 +276,8 @@ ReceiveAppRequest(S, c, m) ==   \* -> [S, raised]
   ELSE IF m.realm \notin ServedRealms THEN [S |-> SendMessage(S, c, Answer(m, 3003)), raised |-> FALSE]
   ELSE LET a == PickApp(S, c, m) IN
        IF a = "" THEN [S |-> SendMessage(S, c, Answer(m, 3007)), raised |-> FALSE]
-       ELSE LET S1 == Emit(PwAdd(S, PwKey(S, c), PwId(m)), [ev |-> "app_req", a |-> a, m |-> m])
-            IN CASE AppCfg[a].handler = "hold"   -> [S |-> S1, raised |-> FALSE]
+       ELSE LET S1 == Emit(PwAdd(S, PwKey(S, c), PwId(m)), [ev |-> "app_req", a |-> a, c |-> c, m |-> m])
+            IN CASE AppCfg[a].handler = "hold"   -> [S |-> [S1 EXCEPT !.held = Append(@, [a |-> a, c |-> c, m |-> m, answered |-> FALSE])], raised |-> FALSE]
                  [] AppCfg[a].handler = "answer" -> [S |-> SubmitAnswer(S1, a, [Answer(m, 2001) EXCEPT !.app = m.app]), raised |-> FALSE]
                  [] AppCfg[a].handler = "raise"  -> [S |-> S1, raised |-> TRUE]
 
